@@ -689,12 +689,18 @@ def domain_c12(tier: str, rng: random.Random) -> Iterable[dict[str, Any]]:
 
 # ============================================================================= C09: unique graph selection
 def run_c09(case: dict[str, Any]) -> dict[str, Any]:
-    """case: {"spans": [...], "batch": b}"""
+    """case: {"spans": [...], "batch": b, "time_buffer": tb (optional; with it the window step of the cleaning runs first, as in otel_to_pv)}"""
     stream = dec_spans(case["spans"])
     b = case["batch"]
     viol: list[dict[str, Any]] = []
-    dh = store_from(stream, b, 0)
+    dh = store_from(stream, b, case.get("time_buffer", 0))
     try:
+        if case.get("time_buffer"):
+            # "among the stored traces": the selection runs on what the cleaning left, with the same buffered window
+            try:
+                dh.remove_jobs_outside_of_time_window()
+            except Exception as e:  # noqa: BLE001
+                return {"violations": [{"key": f"remove_jobs_outside_of_time_window/no_raise.{type(e).__name__}", "what": str(e)[:300], "case": case}]}
         if case.get("spans2"):
             # the selection was already run once on an earlier state of the store; spans that arrive afterwards must count
             try:
@@ -819,6 +825,26 @@ def domain_c09(tier: str, rng: random.Random) -> Iterable[dict[str, Any]]:
     for b in (1, 2, 1000):
         yield {"spans": enc_spans(first + mid + last), "batch": b}
         yield {"spans": enc_spans(first), "batch": b}
+    # a buffered window (time_buffer 1 minute over data spread over 0..9): traces that the cleaning keeps because *some* span starts or
+    # ends inside the window although the trace itself starts in the leading buffer zone and / or ends in the trailing one - each
+    # with a shape of its own: root over everything with a child inside, root and first child early with a late grandchild inside, ...
+    inside = tree_spans("T1", (None, 0), ("A", "B"), "W1") + tree_spans("T2", (None, 0, 0), ("A", "B", "B"), "W1")
+    inside = [s_._replace(start=T0 + 4 * MIN, end=T0 + 5 * MIN) for s_ in inside]
+    edge = [span("E0", 0, None, 0, 0, etype="first", name="W1"), span("E9", 0, None, 9, 9, etype="last", name="W1")]
+    longs = {
+        "over_with_child_inside": [span("L", 0, None, 0, 9, etype="long", name="W1"), span("L", 1, "L.s0", 3, 4, etype="work", name="W1")],
+        "over_children_in_zones_and_inside": [span("L", 0, None, 0, 9, etype="long", name="W1"), span("L", 1, "L.s0", 0, 0, etype="early", name="W1"),
+                                              span("L", 2, "L.s0", 5, 5, etype="work", name="W1"), span("L", 3, "L.s0", 9, 9, etype="late", name="W1")],
+        "starts_early_ends_inside": [span("L", 0, None, 0, 4, etype="long", name="W1"), span("L", 1, "L.s0", 0, 0, etype="early", name="W1")],
+        "starts_inside_ends_late": [span("L", 0, None, 5, 9, etype="long", name="W1"), span("L", 1, "L.s0", 9, 9, etype="late", name="W1")],
+        "over_nothing_inside": [span("L", 0, None, 0, 9, etype="long", name="W1"), span("L", 1, "L.s0", 0, 0, etype="early", name="W1")],
+        "other_name": [span("L", 0, None, 0, 9, etype="long", name="W2"), span("L", 1, "L.s0", 4, 4, etype="work", name="W2"),
+                       span("M", 0, None, 0, 9, etype="long", name="W2"), span("M", 1, "M.s0", 5, 5, etype="work", name="W2")],
+    }
+    for nm, lg in longs.items():
+        for b in (1, 2, 1000):
+            yield {"spans": enc_spans(edge + inside + lg), "batch": b, "time_buffer": 1}
+        yield {"spans": enc_spans(lg + inside + edge), "batch": 3, "time_buffer": 1}
     # three large traces of one shape (a root with 3999 leaves each): more rows per root batch than any fetch size used internally
     big = []
     for k in range(3):
